@@ -107,8 +107,24 @@ class _Gatt:
 
     latency = None  # None: a write is delivered at once; 'size': it completes after a time growing with its size; 'inverse': shrinking with it
 
+    fail_at = None  # (index of the write that fails, delivered?) - the stack reports an error for that write while the link stays up
+
     async def write_gatt_char(self, handle, data, response):
         data = bytes(data)
+        if self.fail_at is not None and len(self.writes) == self.fail_at[0] and not getattr(self, "_failed", False):
+            self._failed = True
+            from bleak.exc import BleakError
+
+            if not self.fail_at[1]:
+                raise BleakError("write rejected")  # never reached the accessory
+            try:
+                await self._deliver(handle, data, response)
+            finally:
+                pass
+            raise BleakError("write acknowledgement lost")  # reached the accessory, the acknowledgement did not reach us
+        await self._deliver(handle, data, response)
+
+    async def _deliver(self, handle, data, response):
         if self.latency:
             import asyncio
 
@@ -602,6 +618,57 @@ def case_ble_session(p):
     return out
 
 
+def case_ble_writefault(p):
+    """One GATT write of a (multi-fragment) request fails while the link stays up - refused before it reached the accessory, or delivered with
+    its acknowledgement lost.  Failing the request is fine; what is not: a call that comes back as done although the accessory executed
+    something else than the request (a fragment twice, a tail cut off), or fragments the accessory cannot follow after an apparent success."""
+    from aiohomekit import pdu as libpdu
+    from aiohomekit.controller.ble import client as libclient
+    from aiohomekit.controller.ble.key import DecryptionKey, EncryptionKey
+
+    f, enc, L, seed = p["f"], bool(p["enc"]), p["L"], p.get("seed", 0)
+    c2a, a2c = det_bytes(seed, "c17w-c2a"), det_bytes(seed, "c17w-a2c")
+    session = blepdu.Session(c2a, a2c) if enc else None
+    body = _fill(L, seed + 3)
+    executed = []
+
+    def responder(req):
+        executed.append(bytes(req.body))
+        echo = bytes(b ^ 0x5A for b in req.body)
+        return blepdu.response_fragments(req.tid, 0, echo, blepdu.uniform_parts(len(echo), f))
+
+    class G(_Gatt):
+        async def write_gatt_char(self, handle, data, response):
+            # (a conformant accessory that gets bytes it cannot follow answers nothing useful: the breach is recorded, the write itself "succeeds")
+            try:
+                return await super().write_gatt_char(handle, data, response)
+            except _Breach:
+                return None
+
+    gatt = G(f + blepdu.TAG if enc else f, session, responder)
+    gatt.fail_at = (p["at"], bool(p["delivered"]))
+    saved = libclient.random
+    libclient.random = _Rand(_rot(BLE_TIDS, L))
+    try:
+        from vt import vloop
+
+        loop = vloop.VirtualLoop().install()  # (a real loop: the library may want to wait a moment before it reacts to the failure)
+        try:
+            res = loop.run_coro(libclient.ble_request(gatt, EncryptionKey(c2a) if enc else None, DecryptionKey(a2c) if enc else None, libpdu.OpCode(2), _Handle(), 9, body), 600.0)
+        except core.HarnessError:
+            raise
+        except Exception:  # noqa: BLE001
+            return []  # the request failed: the caller knows
+        finally:
+            loop.shutdown()
+    finally:
+        libclient.random = saved
+    out = []
+    if executed and executed[-1] != body or not executed:
+        out.append(("ble:request-reported-done-though-the-accessory-executed-another-body", {**p, "executed_len": [len(x) for x in executed], "body_len": len(body), "status": _status_value(res[0])}))
+    return out
+
+
 def case_ble_realclient(p):
     """The library's own GATT client class (AIOHomeKitBleakClient: the real fragment-size negotiation, MTU 100) with only the radio replaced: a
     sequence of plain and encrypted requests on the same and on different characteristics of ONE client object.  No fragment on the air is
@@ -692,6 +759,7 @@ def _work_sched(item, seed, tier):
 
 
 CASES = {
+    "ble_writefault": case_ble_writefault,
     "ble_realclient": case_ble_realclient,
     "ble_session": case_ble_session,
     "ble_sched": case_ble_sched,
@@ -704,7 +772,7 @@ CASES = {
 
 # ================================================================ work
 def _symbols(name, p):
-    if name == "ble_realclient":
+    if name in ("ble_realclient", "ble_writefault"):
         return (name,)
     if name == "ble_session":
         return (name, "ble:enc" if p["enc"] else "ble:plain")
@@ -815,6 +883,15 @@ def run(ctx):
                 continue
             rc.append({"requests": [list(r) for r in reqs], "seed": seed})
     work += _chunks("ble_realclient", rc, 80)
+    wf = []
+    for f in (20, 64) if quick else (8, 20, 23, 64, 155):
+        for L in (0, f - 7, f, 3 * f, 5 * f + 1, (f - 7) + 2 * (f - 2), (f - 7) + 3 * (f - 2), (f - 7) + 3 * (f - 2) - 1):
+            nfr = 1 if L <= f - 7 else 1 + -(-(L - (f - 7)) // (f - 2))
+            for at in range(nfr):
+                for delivered in (0, 1):
+                    for enc in (0, 1):
+                        wf.append({"f": f, "enc": enc, "L": L, "at": at, "delivered": delivered, "seed": seed})
+    work += _chunks("ble_writefault", wf, 100)
     ctx.bounds["ble_request"] = dict(
         grid="fragment budgets 8..64 x body lengths 0..200 x {plain, encrypted}",
         realistic=f"budgets {REAL_SIZES} x " + ("boundary lengths (0,1,2, k-th fragment boundary -1/0/+1 for k<4, 255..257, 1000, 2048, 4999, 5000)" if quick else "every length 0..5000") + " x {plain, encrypted}",
